@@ -15,9 +15,18 @@ Agree(x) ==
   LET S == EvalQ(x.orig, [db |-> DbOf(x.tables, x.asg), res |-> <<>>, defdb |-> x.defdb, ctes |-> [n \in {} |-> {}]])
   IN \E r \in S : IF r.ord THEN SameOrdered([rows |-> x.rows], r) ELSE SameBag(r.rows, x.rows)
 
+\* DML observations: x.dml = the statement, x.table = index of the target table, x.rows = its rows afterwards
+AgreeDml(x) ==
+  LET c == [db |-> DbOf(x.tables, x.asg), res |-> <<>>, defdb |-> x.defdb, ctes |-> [n \in {} |-> {}]]
+      tb == [cols |-> x.tables[x.table].cols, rows |-> x.asg[x.table]]
+  IN SameBag(ApplyDml(x.dml, tb, c), x.rows)
+IsDml(x) == "dml" \in DOMAIN x
+
 Init == tid \in 1..Len(Obs) /\ done = FALSE
 Judge == /\ ~done /\ done' = TRUE /\ UNCHANGED tid
-         /\ (~Agree(Obs[tid]) => PrintT(<<"DIFF", tid, EvalQ(Obs[tid].orig, [db |-> DbOf(Obs[tid].tables, Obs[tid].asg), res |-> <<>>,
+         /\ IF IsDml(Obs[tid])
+            THEN (~AgreeDml(Obs[tid]) => PrintT(<<"DIFF", tid, "dml">>))
+            ELSE (~Agree(Obs[tid]) => PrintT(<<"DIFF", tid, EvalQ(Obs[tid].orig, [db |-> DbOf(Obs[tid].tables, Obs[tid].asg), res |-> <<>>,
                                               defdb |-> Obs[tid].defdb, ctes |-> [n \in {} |-> {}]])>>))
 Spec == Init /\ [][Judge]_<<tid, done>>
 =============================================================================
